@@ -17,7 +17,8 @@
 //        the model's input.  Fed verbatim to bin/oracle_objsm, whose output line must be identical.
 //   OFF <ml> <at> <pc> <rs> <delta> <ngroups> { <jt> <et> <paths> }*
 //        whole object vs every group alone vs every path alone (same group parameters), plus Execute twice,
-//        Execute(tree) vs fresh, Execute(paths) after Execute(tree).
+//        Execute(tree) vs fresh, Execute(paths) after Execute(tree), after another delta, after Clear + same paths.
+//   OFFCB <cbmode> <same as OFF>   the same with a DeltaCallback64 installed (see cmd_off).
 //   RC <lines01> <l> <t> <r> <b> <pathsA> <pathsB>     RectClip64 / RectClipLines64 object reuse and concatenation.
 #include "common.h"
 using namespace vfh;
@@ -188,29 +189,40 @@ static bool has_ub_input(const std::vector<GroupIn>& gs) {
   return false;
 }
 
-static void cmd_off(Toks& t, std::ostream& os) {
+// cbmode 0: Execute(delta).  1: a DeltaCallback64 returning the constant |delta| (installed with SetDeltaCallback, as
+// Execute(cb, paths) does).  2: a callback returning |delta| + 0.5 * path_normals.size() (what the callback is *shown*).
+static void cmd_off(Toks& t, std::ostream& os, int cbmode) {
   double ml = t.dbl(), at = t.dbl(); bool pc = t.b(), rs = t.b(); double delta = t.dbl();
   int ng = t.i32(); std::vector<GroupIn> gs;
   for (int i = 0; i < ng; ++i) { GroupIn g; g.jt = t.i32(); g.et = t.i32(); g.paths = t.paths(); gs.push_back(std::move(g)); }
   if (has_ub_input(gs)) { os << "SKIP empty-path-in-open-group"; return; }
   auto add_all = [&](ClipperOffset& co) { for (auto& g : gs) co.AddPaths(g.paths, (JoinType)g.jt, (EndType)g.et); };
-  Paths64 W, W2, W3; std::string T0, T1;
+  auto setup = [&](ClipperOffset& co) {
+    if (cbmode == 1) co.SetDeltaCallback([delta](const Path64&, const PathD&, size_t, size_t) { return std::fabs(delta); });
+    if (cbmode == 2) co.SetDeltaCallback([delta](const Path64&, const PathD& n, size_t, size_t) { return std::fabs(delta) + 0.5 * (double)n.size(); });
+  };
+  const double d = cbmode ? 1.0 : delta;      // Execute(cb, paths) calls Execute(1.0, paths)
+  Paths64 W, W2, W3, W4, W5; std::string T0, T1;
   {
-    ClipperOffset co(ml, at, pc, rs); add_all(co);
-    co.Execute(delta, W);
-    co.Execute(delta, W2);
-    { PolyTree64 tr; co.Execute(delta, tr); std::ostringstream s; ser_tree(s, tr); T1 = s.str(); }
-    co.Execute(delta, W3);
-    ClipperOffset co2(ml, at, pc, rs); add_all(co2);
-    { PolyTree64 tr; co2.Execute(delta, tr); std::ostringstream s; ser_tree(s, tr); T0 = s.str(); }
+    ClipperOffset co(ml, at, pc, rs); setup(co); add_all(co);
+    co.Execute(d, W);
+    co.Execute(d, W2);
+    { PolyTree64 tr; co.Execute(d, tr); std::ostringstream s; ser_tree(s, tr); T1 = s.str(); }
+    co.Execute(d, W3);
+    { Paths64 tmp; co.Execute(cbmode ? 1.0 : -1.75 * delta, tmp); }   // another delta in between
+    co.Execute(d, W4);
+    co.Clear(); add_all(co);                                           // Clear, then the same paths again
+    co.Execute(d, W5);
+    ClipperOffset co2(ml, at, pc, rs); setup(co2); add_all(co2);
+    { PolyTree64 tr; co2.Execute(d, tr); std::ostringstream s; ser_tree(s, tr); T0 = s.str(); }
   }
-  os << "OK e2=" << (W2 == W) << " t=" << (T0 == T1) << " e3=" << (W3 == W) << " W "; put(os, W);
+  os << "OK e2=" << (W2 == W) << " t=" << (T0 == T1) << " e3=" << (W3 == W) << " d2=" << (W4 == W) << " cl=" << (W5 == W) << " W "; put(os, W);
   os << " NG " << gs.size();
   for (auto& g : gs) {
-    Paths64 G; { ClipperOffset co(ml, at, pc, rs); co.AddPaths(g.paths, (JoinType)g.jt, (EndType)g.et); co.Execute(delta, G); }
+    Paths64 G; { ClipperOffset co(ml, at, pc, rs); setup(co); co.AddPaths(g.paths, (JoinType)g.jt, (EndType)g.et); co.Execute(d, G); }
     os << " G "; put(os, G); os << " NP " << g.paths.size();
     for (auto& p : g.paths) {
-      Paths64 A; { ClipperOffset co(ml, at, pc, rs); co.AddPaths(Paths64(1, p), (JoinType)g.jt, (EndType)g.et); co.Execute(delta, A); }
+      Paths64 A; { ClipperOffset co(ml, at, pc, rs); setup(co); co.AddPaths(Paths64(1, p), (JoinType)g.jt, (EndType)g.et); co.Execute(d, A); }
       os << " A "; put(os, A);
     }
   }
@@ -254,7 +266,8 @@ int main(int argc, char** argv) {
       if (c == "DEFS") cmd_defs(t, os);
       else if (c == "H") { std::string v = t.next(); if (v == "D") run_history<ClipperD>(t, os); else run_history<Clipper64>(t, os); }
       else if (c == "TR") cmd_trace(t, os);
-      else if (c == "OFF") cmd_off(t, os);
+      else if (c == "OFF") cmd_off(t, os, 0);
+      else if (c == "OFFCB") { int m = t.i32(); cmd_off(t, os, m); }
       else if (c == "RC") cmd_rc(t, os);
       else os << "ERR unknown command " << c;
     }
